@@ -39,7 +39,7 @@ ASSUMPTIONS = [
     "width/height of the description come from the P2P table (largest listed "
     "coordinate + 1)",
 ]
-FLOORS = {"iobuf_chain_of_hundreds": 3, "description_iterator_nested": 80, "code_name_compared": 100, "iobuf_non_ascii": 15, "system_info_checked": 150, "chip_info_compared": 1200,
+FLOORS = {"survey_from_a_named_chip": 20, "iobuf_chain_of_hundreds": 3, "description_iterator_nested": 80, "code_name_compared": 100, "iobuf_non_ascii": 15, "system_info_checked": 150, "chip_info_compared": 1200,
           "machine_model_checked": 150, "core_constraints_checked": 150,
           "processor_status_checked": 150, "iobuf_checked": 150,
           "p2p_table_checked": 100, "unresponsive_chip": 100}
@@ -240,11 +240,30 @@ def run(case, ctx):
             check(False, "p2p-table-entry", "(%d,%d): %r, table holds %d" %
                   (x, y, e, want))
     # ---------------------------------------------------- system info
+    start = None
+    cand = sorted(responding - {(0, 0)})
+    if cand and len(chips) >= 4 and (w * 7 + h * 3 + len(cand)) % 3 == 0:
+        # "a very broken machine": the boot chip has lost its routes to a
+        # part of the machine, another chip still knows them all - the
+        # caller names that chip as the one to ask
+        start = cand[(w + h) % len(cand)]
+        m.p2p_blind = {(0, 0): set(sorted(set(chips) - {(0, 0), start})[
+            (w + h) % 2::2])}
+        m.finalise()
+        ctx.hit("survey_from_a_named_chip")
     try:
-        si = mc.get_system_info()
+        if start is None:
+            si = mc.get_system_info()
+        elif (w + h) % 2:
+            si = mc.get_system_info(start[0], start[1])
+        else:
+            si = mc.get_system_info(y=start[1], x=start[0])
     except Exception as e:
         raise Violation("unexpected-exception", "get_system_info: %s: %s" %
                         (type(e).__name__, e))
+    if start is not None:
+        m.p2p_blind = {}
+        m.finalise()
     ctx.hit("system_info_checked")
     ctx.hit("unresponsive_chip", len(silent) + len(ghosts))
     ew = max(x for x, y in listed) + 1
